@@ -169,7 +169,25 @@ type Served struct {
 	Kind     string // "diff", "slice", "empty", "toolong"
 	Messages []int
 	Others   []int
+	Extras   []int // forwarded updates of other sequences
 	ToPts    int
+}
+
+// UnknownChan: channels whose access hash nobody knows.
+func UnknownChan(c int64) bool { return c >= 9000 }
+
+// takeExtras returns (and forgets) the extra entries waiting for the next answer of seq.
+func (w *World) takeExtras(seq string, peek bool) []Entry {
+	var out []Entry
+	for _, id := range w.Extra[seq] {
+		if en, _, ok := w.entry(id); ok {
+			out = append(out, en)
+		}
+	}
+	if !peek {
+		delete(w.Extra, seq)
+	}
+	return out
 }
 
 // World is the server side: the log, what has happened so far, and how differences are answered.
@@ -188,6 +206,11 @@ type World struct {
 
 	Served []Served
 
+	// Extra: other_updates the next non-too-long answer for a sequence ("pts" = common difference,
+	// "c<id>") will carry in addition: updates of OTHER sequences, position-less updates, updates of
+	// unknown channels, forwarded by the server inside this difference.
+	Extra map[string][]int
+
 	// channel difference in progress (answer handed out, SetChannelPts of the final part not yet seen)
 	inDiff    map[int64]bool
 	lastFinal map[int64]bool
@@ -196,7 +219,7 @@ type World struct {
 }
 
 func NewWorld(log []Entry, p0, q0 int, c0 map[int64]int) *World {
-	return &World{Log: log, P0: p0, Q0: q0, C0: c0, ChanTooLong: map[int64]bool{}, inDiff: map[int64]bool{},
+	return &World{Log: log, P0: p0, Q0: q0, C0: c0, ChanTooLong: map[int64]bool{}, Extra: map[string][]int{}, inDiff: map[int64]bool{},
 		lastFinal: map[int64]bool{}, genuineTL: map[int64]int{}}
 }
 
@@ -257,10 +280,11 @@ func (w *World) commonDifference(pts, qts int) tg.UpdatesDifferenceClass {
 			part = append(part, e)
 		}
 	}
-	if len(part) == 0 {
+	if len(part) == 0 && len(w.takeExtras("pts", true)) == 0 {
 		w.Served = append(w.Served, Served{Seq: "pts", Kind: "empty"})
 		return &tg.UpdatesDifferenceEmpty{Date: Date0, Seq: 0}
 	}
+	extras := w.takeExtras("pts", false)
 	st := tg.UpdatesState{Pts: pts, Qts: qts, Date: Date0, Seq: 0}
 	sv := Served{Seq: "pts", Kind: "diff"}
 	var msgs []tg.MessageClass
@@ -288,6 +312,10 @@ func (w *World) commonDifference(pts, qts int) tg.UpdatesDifferenceClass {
 	}
 	if !more {
 		st.Pts, st.Qts = max(st.Pts, sp), max(st.Qts, sq)
+	}
+	for _, e := range extras {
+		others = append(others, e.Update())
+		sv.Extras = append(sv.Extras, e.ID)
 	}
 	sv.ToPts = st.Pts
 	if more {
@@ -326,12 +354,16 @@ func (w *World) channelDifference(c int64, pts int) tg.UpdatesChannelDifferenceC
 			part = append(part, e)
 		}
 	}
-	if len(part) == 0 {
+	if len(part) == 0 && len(w.takeExtras(seq, true)) == 0 {
 		w.Served = append(w.Served, Served{Seq: seq, Kind: "empty", ToPts: max(pts, sp)})
 		return &tg.UpdatesChannelDifferenceEmpty{Final: true, Pts: max(pts, sp)}
 	}
+	extras := w.takeExtras(seq, false)
 	sv := Served{Seq: seq, Kind: "diff"}
 	d := &tg.UpdatesChannelDifference{Final: !more, Pts: pts}
+	if len(part) == 0 {
+		d.Pts = max(pts, sp)
+	}
 	for _, e := range part {
 		switch e.Kind {
 		case KChMsg:
@@ -342,6 +374,10 @@ func (w *World) channelDifference(c int64, pts int) tg.UpdatesChannelDifferenceC
 			sv.Others = append(sv.Others, e.ID)
 		}
 		d.Pts = e.Pos
+	}
+	for _, e := range extras {
+		d.OtherUpdates = append(d.OtherUpdates, e.Update())
+		sv.Extras = append(sv.Extras, e.ID)
 	}
 	if more {
 		sv.Kind = "slice"
@@ -491,5 +527,8 @@ type hasher struct{}
 
 func (hasher) SetChannelAccessHash(context.Context, int64, int64, int64) error { return nil }
 func (hasher) GetChannelAccessHash(_ context.Context, _, channelID int64) (int64, bool, error) {
+	if UnknownChan(channelID) {
+		return 0, false, nil
+	}
 	return channelID*1000 + 1, true, nil
 }
